@@ -444,6 +444,11 @@ def _end_to_end(run, rng, thorough, lines, meta):
                 # phonon state moments through the API (orders 0..3, whole spectrum and a frequency window)
                 if sym:
                     window = (0.37 * fmax, 0.81 * fmax)
+                    fr_all = np.array(md["frequencies"])
+                    if not ((window[0] < fr_all) & (fr_all < window[1])).any():
+                        # an empty frequency window is not a well-formed request (run_moment divides by the
+                        # number of modes in the window): widen it to the whole positive spectrum
+                        window = (1e-6, 1.01 * fmax)
                 moms = []
                 for order in (0, 1, 2, 3):
                     for win in (None, window):
